@@ -23,3 +23,42 @@ __CPROVER_ensures(g_ctx.code == __CPROVER_old(g_ctx.code))
 __CPROVER_ensures(VC_BN_NF(a) && (vc_mag(a) >> bits) == 0 && (a->sign == sign || vc_mag(a) == 0))
 ;
 #include "vc_spec_pop.h"
+
+#include "vc_spec_push.h"
+/* ASSUMED (division is not verified): reduction returns a normalised value of magnitude below the modulus */
+void bn_mod_basic_abs(bn_t c, const bn_t a, const bn_t m)
+__CPROVER_requires(VC_BN_FRESH(a))
+__CPROVER_requires(VC_BN_FRESH(m))
+__CPROVER_requires(VC_BN_SAME(c, a) || VC_BN_FRESH(c))
+__CPROVER_requires(VC_BN_NF(a) && VC_BN_NF(m) && vc_mag(m) != 0 && VC_BN_OUT(c))
+VC_ASSIGNS(__CPROVER_object_whole(c), g_ctx.code, g_ctx.last, g_ctx.caught, g_ctx.error, g_ctx.number, g_thrown)
+__CPROVER_ensures(g_ctx.code == __CPROVER_old(g_ctx.code) && g_ctx.last == __CPROVER_old(g_ctx.last))
+__CPROVER_ensures(VC_BN_NF(c) && vc_mag(c) < vc_mag(m))
+;
+/* sampling below a bound: on return the result is non-zero, of magnitude below |b| (termination is probabilistic and
+   not claimed: the loop contract has no decreases clause) */
+void bn_rand_mod(bn_t a, const bn_t b)
+__CPROVER_requires(VC_BN_FRESH(b))
+__CPROVER_requires(VC_BN_FRESH(a))
+__CPROVER_requires(VC_BN_NF(b) && vc_mag(b) != 0 && VC_BN_OUT(a) && b->used + 2 <= RLC_BN_SIZE)
+__CPROVER_requires(g_ctx.counter >= 1 && g_ctx.counter < 1000)
+VC_ASSIGNS(__CPROVER_object_whole(a), __CPROVER_object_upto(g_ctx.rand, sizeof(g_ctx.rand)), g_ctx.counter, g_ctx.code, g_ctx.last, g_ctx.caught, g_ctx.error, g_ctx.number, g_thrown)
+__CPROVER_ensures(g_ctx.code == __CPROVER_old(g_ctx.code))
+__CPROVER_ensures(VC_BN_NF(a) && vc_mag(a) != 0 && vc_mag(a) < vc_mag(b))
+;
+/* frame view of bn_rand for callers (proved contract: bn_rand above) */
+void bn_rand_frame(bn_t a, int sign, size_t bits)
+__CPROVER_requires((sign == RLC_POS || sign == RLC_NEG) && (bits + RLC_DIG - 1) / RLC_DIG <= RLC_BN_SIZE)
+__CPROVER_requires(VC_BN_FRESH(a) && VC_BN_OUT(a))
+__CPROVER_requires(g_ctx.counter >= 1 && g_ctx.counter < INT_MAX - 256)
+VC_ASSIGNS(__CPROVER_object_whole(a), __CPROVER_object_upto(g_ctx.rand, sizeof(g_ctx.rand)), g_ctx.counter, g_ctx.code, g_ctx.last, g_ctx.caught, g_ctx.error, g_ctx.number, g_thrown)
+__CPROVER_ensures(g_ctx.code == __CPROVER_old(g_ctx.code) && g_ctx.last == __CPROVER_old(g_ctx.last) && g_ctx.counter == __CPROVER_old(g_ctx.counter) + 1)
+__CPROVER_ensures(VC_BN_NF(a) && (vc_mag(a) >> bits) == 0)
+;
+#include "vc_spec_pop.h"
+#define VC_LOOP_bn_rand_mod_0 \
+	__CPROVER_assigns(__CPROVER_object_whole(a), __CPROVER_object_upto(g_ctx.rand, sizeof(g_ctx.rand)), g_ctx.counter, g_ctx.code, g_ctx.last, g_ctx.caught, g_ctx.error, g_ctx.number, g_thrown) \
+	__CPROVER_loop_invariant(VC_BN_OUT(a) && VC_BN_NF(t) && VC_VAL(t->dp, t->used) == VC_VAL(b->dp, b->used) && t->used == b->used && g_ctx.counter >= 1 && g_ctx.last == &_this && g_ctx.code == vc_code0)
+#define VC_PRE_bn_rand_mod_0  int vc_code0 = g_ctx.code;
+/* ASSUMPTION: fewer than 2^31 - 600 generate calls since the last (re)seed (the int reseed counter does not overflow) */
+#define VC_TOP_bn_rand_mod_0  __CPROVER_assume(g_ctx.counter < INT_MAX - 600);
